@@ -177,6 +177,7 @@ def run(run):
     run.rule = "partition: one min-vs-min query per path; algorithm: structural checks + optimality query on flagged paths"
     items = sweep.make_items(run, ["Copeland"], [chk_partition], flags=(True,), light=light, heavy=light,
                              strata={"*": ["cycles3", "comp3plus1"]})
+    items += sweep.history_items(run, ["Copeland"], [chk_partition], 40 if run.thorough else 12)
     part_bounds = run.bounds.pop("sweep (per configuration: shapes n, m; datasets explored / all)")
     run.pmap("partition", sweep.run_item, sweep.order_items(items), chunksize=2)
     symb = [(2, 2), (3, 1), (3, 2), (2, 3)] + ([(3, 3), (4, 1)] if run.thorough else [])
@@ -198,7 +199,7 @@ def replay(p):
         from corankco.dataset import Dataset
         from corankco.scoringscheme import ScoringScheme
         sc = ScoringScheme([[float(x) for x in v] for v in p["scheme"]])
-        ds = Dataset.from_raw_list(shapes.from_json(p["rankings"]))
+        ds = sweep.replay_dataset(p, sc)
         names, lvs = sweep.concrete_levels(p)
         try:
             part = [set(el.value for el in g) for g in OrderedPartition.parcons_partition(ds, sc)]
